@@ -1,4 +1,5 @@
 import RpmVerif.Lemmas.ExtractBenign
+import RpmVerif.Lemmas.PkgFiles
 /-!
 # C12 — extraction recreates the files and never touches anything outside the target
 
@@ -28,13 +29,32 @@ The three former counterexamples of the hostile clause (a `..` component, a link
 at or below it, a FIFO entry — also in corpus/C12 and replayed against the real code on every run) are
 kept as regression theorems `regress_*`: on the repaired model each yields `err` and an untouched decoy.
 
+The package views (`Fs.Input`) the theorems above quantify over are tied to packages in the last part of the file:
+`PkgFiles.extractInput` — what the driver feeds `Fs.extract` with — is built from the proved, table-driven models and
+from nothing else:
+
+* `input_files_failed`, `input_of_files` : it is `Acc.getFileEntries` (C04 / C05 / C06), `Acc.getPayloadCompressorVariant`
+                        and `Cpio.iterate` (C07) composed as `Package::extract` / `Package::files` compose them;
+* `input_items_are_iteration` : the items are exactly the `Ok` prefix of the cpio iteration, each projected to the
+                        metadata of the header file at the index the iteration attached; the tail flag says whether an
+                        `Err` ended it; `input_index_in_range`: `self.file_entries[index]` cannot panic;
+* `input_item_designated` : C07's pairing carried over — every item is the content of an archive entry under the
+                        metadata of the header file that very entry designates, written at the path the entry names;
+* `input_digests_standard`, `digest_table_decides`, `digest_algo_fallbacks` : a package yields items only if every
+                        non-empty file digest has a hex length the source's own table pairs with its algorithm
+                        (`Gen.fileDigestHexLen`, regenerated from `FileDigest::new`; SHA-224 = 56 since fix e7bf001; that
+                        the lengths are the real digest sizes is C05 `file_digest_lengths_standard`);
+* `compressor_tables_agree`, `default_compressor_is_identity`, `payload_compressor_bridge` : the compressor variant is the one whose name C05's accessor
+                        (`Acc.getPayloadCompressor`, compared with the real code on every C05 run) answers;
+* `extract_package_hostile`, `extract_package_total` : the hostile clause for every parsed package.
+
 What the hypotheses about the caller's side mean (`TargetClean`): the destination's components are
 ordinary names, its proper ancestors are directories (so "below the destination" is meant physically),
 and nothing lies strictly below it — which holds automatically when the destination is vacant in a
 tree-shaped file system (`extract_hostile_wf`), and if it is not vacant `create_dir` fails first.
 -/
 namespace RpmVerif.C12
-open RpmVerif.Fs RpmVerif.Extract
+open RpmVerif.Fs RpmVerif.Extract RpmVerif.Hdr RpmVerif.PkgFiles RpmVerif.Gen
 
 /-- what is assumed of the destination `T` before the call -/
 structure TargetClean (fs : Fs) (T : Path) : Prop where
@@ -201,6 +221,161 @@ theorem extract_faithful (inp : Input) (T : Path) (fs : Fs) (hb : benign inp = t
 theorem targetReady_clean {fs : Fs} {T : Path} (h : TargetReady fs T) : TargetClean fs T :=
   ⟨h.normal, h.parents, fun q hq _ => h.vacant q hq⟩
 
+/-! ### from package views to packages: `PkgFiles.extractInput` is the composition of the proved models -/
+
+/-- the DIRNAMES column as `extract` reads it -/
+def dirnamesOf (p : Package) : Option (List Bytes) := (getStringArray p.md.header IndexTag.RPMTAG_DIRNAMES).toOption
+/-- header paths / sizes: the two columns of `file_entries` the cpio reader consults -/
+def pathsOf (es : List Acc.FileEntry) : List Bytes := es.map (·.path)
+def sizesOf (es : List Acc.FileEntry) : List Nat := es.map (·.size)
+
+theorem input_files_failed (p : Package) (a? : Option Bytes)
+    (h : (Acc.getFileEntries p.md.signature p.md.header).isOk = false ∨
+         (Acc.getPayloadCompressorVariant p.md.header).isOk = false) :
+    extractInput p a? = some ⟨dirnamesOf p, [], false⟩ := by
+  unfold extractInput dirnamesOf
+  cases he : Acc.getFileEntries p.md.signature p.md.header with
+  | ok es =>
+    cases hv : Acc.getPayloadCompressorVariant p.md.header with
+    | ok v => rw [he, hv] at h; simp [Out.isOk] at h
+    | err c => rfl
+    | panic s => rfl
+  | err c => rfl
+  | panic s => rfl
+
+theorem input_of_files (p : Package) (a? : Option Bytes) (es : List Acc.FileEntry) (v : Nat) (a : Bytes)
+    (he : Acc.getFileEntries p.md.signature p.md.header = .ok es)
+    (hv : Acc.getPayloadCompressorVariant p.md.header = .ok v)
+    (ha : (if payloadIsArchive v then some p.content else a?) = some a) :
+    extractInput p a? = some ⟨dirnamesOf p, (collect es (Cpio.iterate a (pathsOf es) (sizesOf es))).1,
+                                           (collect es (Cpio.iterate a (pathsOf es) (sizesOf es))).2⟩ := by
+  unfold extractInput dirnamesOf
+  simp only [he, hv, ha, itemsOf, pathsOf, sizesOf]
+
+theorem input_items_are_iteration (es : List Acc.FileEntry) (a : Bytes) :
+    (itemsOf es a).1.map some = (okPrefix (Cpio.iterate a (pathsOf es) (sizesOf es))).map (fun x => itemOf es x.1 x.2)
+    ∧ ((itemsOf es a).2 = true ↔ ∀ x ∈ Cpio.iterate a (pathsOf es) (sizesOf es), x.isOk = true) :=
+  ⟨collect_items es _ (itemsOf_in_range es a), collect_tail es _ (itemsOf_in_range es a)⟩
+
+
+/-- `self.file_entries[index]` in `FileIterator::next` is always in range -/
+theorem input_index_in_range (es : List Acc.FileEntry) (a : Bytes) (i : Nat) (c : Bytes)
+    (h : .ok (i, c) ∈ Cpio.iterate a (pathsOf es) (sizesOf es)) : i < es.length ∧ ∃ it, itemOf es i c = some it := by
+  have hi := itemsOf_in_range es a i c h
+  exact ⟨hi, itemOfEntry es[i] c, by simp only [itemOf, List.getElem?_eq_getElem hi, Option.map_some]⟩
+
+theorem mem_of_map_some_eq {α β} {l : List α} {m : List β} {f : β → Option α} (h : l.map some = m.map f) {x : α}
+    (hx : x ∈ l) : ∃ y ∈ m, f y = some x := by
+  have : some x ∈ l.map some := List.mem_map.mpr ⟨x, hx, rfl⟩
+  rw [h] at this
+  obtain ⟨y, hy, hf⟩ := List.mem_map.mp this
+  exact ⟨y, hy, hf⟩
+
+/-- **pairing carried over to `extract`**: every item `extract` sees is the content `c` of an archive entry under the
+metadata of header file `i`, where `i` is what `Reader::file_index` answers for that very entry — the FIRST header file
+whose path is the one the entry's name stands for (`"." + path`, or the plain path), or the index a stripped entry
+carries — so the file is written at the path its own archive entry designates (`Cpio.entryPath`), with a content of
+exactly the size the reader took for the entry.  (C07 `pairing_by_name` / `pairing_first_match` say the same of the
+iteration; nothing is assumed about the archive or the header.) -/
+theorem input_item_designated (es : List Acc.FileEntry) (a : Bytes) (it : Item) (hit : it ∈ (itemsOf es a).1) :
+    ∃ i e entry c, .ok (i, entry, c) ∈ Cpio.iterateE (pathsOf es) (sizesOf es) es.length a ∧ es[i]? = some e ∧
+      it = ⟨e.path, kindOf e.mode, FileMode.permissions (FileMode.fromU16 e.mode), c, e.linkto⟩ ∧
+      Cpio.fileIndex (pathsOf es) entry = some i ∧ Cpio.entryPath (pathsOf es) entry = some it.path ∧
+      Cpio.entrySize (sizesOf es) entry = some c.length := by
+  obtain ⟨⟨i, c⟩, hx, hf⟩ := mem_of_map_some_eq (input_items_are_iteration es a).1 hit
+  have hok := okPrefix_mem hx
+  obtain ⟨entry, hentry⟩ := iterate_ok_mem hok
+  have hlen : (sizesOf es).length = es.length := by simp [sizesOf]
+  rw [hlen] at hentry
+  obtain ⟨hfi, hs⟩ := Cpio.iterateE_item (pathsOf es) (sizesOf es) es.length a i entry c hentry
+  simp only [itemOf] at hf
+  cases hei : es[i]? with
+  | none => rw [hei] at hf; cases hf
+  | some e =>
+    rw [hei] at hf
+    simp only [Option.map_some, Option.some.injEq] at hf
+    subst hf
+    refine ⟨i, e, entry, c, hentry, hei, rfl, hfi, ?_, hs⟩
+    have hp : (pathsOf es)[i]? = some e.path := by simp [pathsOf, hei]
+    cases entry with
+    | cpio ce =>
+      have := Cpio.fileIndex_cpio hfi
+      rw [hp] at this
+      simp only [Cpio.entryPath, itemOfEntry]
+      exact this.symm ▸ rfl
+    | stripped idx =>
+      have := Cpio.fileIndex_stripped hfi
+      subst this
+      simpa [Cpio.entryPath, itemOfEntry] using hp
+
+/-- **file digests gate the input, by the source's own table**: a package yields any item (or a clean end of the
+iteration) only if `get_file_entries` succeeded, and then every recorded (non-empty) file digest has a hex length the
+table `Gen.fileDigestHexLen` pairs with its algorithm — the table `tools/gen/file_digest_len.py` regenerates from
+`FileDigest::new` on every run (SHA-224: 56 since fix e7bf001), the same one C05 works with; that its lengths are the real
+digest sizes is C05 `file_digest_lengths_standard` -/
+theorem input_digests_standard (p : Package) (a? : Option Bytes) (inp : Input) (h : extractInput p a? = some inp)
+    (hne : inp.items ≠ [] ∨ inp.tailOk = true) :
+    ∃ es, Acc.getFileEntries p.md.signature p.md.header = .ok es ∧
+      ∀ e ∈ es, ∀ d, e.digest = some d → (d.1, d.2.length) ∈ fileDigestHexLen := by
+  cases he : Acc.getFileEntries p.md.signature p.md.header with
+  | ok es => exact ⟨es, rfl, fun e hm d hd => getFileEntries_digests _ _ _ es he e hm d hd⟩
+  | err c =>
+    rw [input_files_failed p a? (.inl (by rw [he]; rfl))] at h
+    cases h; simp at hne
+  | panic s =>
+    rw [input_files_failed p a? (.inl (by rw [he]; rfl))] at h
+    cases h; simp at hne
+
+/-- the two scraped compression tables fit together (re-decided on the tables of the current source) -/
+theorem compressor_tables_agree : TablesAgree := by unfold TablesAgree; decide
+
+/-- as the code is now, a package WITHOUT RPMTAG_PAYLOADCOMPRESSOR has an uncompressed payload: the variant
+`get_payload_compressor` answers then is one `decompress_stream` passes through (both scraped).  The hand-encoded hostile
+packages of the correspondence run rely on it (no tag, plain cpio payload): were it to change, the model could not
+predict them any more (`extractInput … = none`), and this theorem says so instead of the run going quiet -/
+theorem default_compressor_is_identity : payloadIsArchive payloadCompressorDefault = true := by decide
+
+/-- … and their texts are ASCII, so comparing code points is comparing the bytes of the header string -/
+theorem compressor_names_ascii :
+    (∀ p ∈ compressionFromStr, ∀ c ∈ p.1, c < 128) ∧ (∀ p ∈ compressionDisplay, ∀ c ∈ p.2, c < 128) := by decide
+
+/-- **compressor bridge**: the `CompressionType` variant `extractInput` branches on, printed, is the compressor name
+`Acc.getPayloadCompressor` answers over the same scraped table — the accessor the C05 run compares with the real
+`get_payload_compressor` on every header — and one fails exactly when the other does -/
+theorem payload_compressor_bridge (h : Header) :
+    (Acc.getPayloadCompressorVariant h).toOption.map (fun v => Acc.textBytes (Compression.toStr v))
+      = (Acc.getPayloadCompressor Acc.compressorNames h).toOption :=
+  compressor_bridge compressor_tables_agree h
+
+/-- **The hostile-package clause for packages**: for EVERY package (parsed from any bytes whatsoever), whatever archive
+the decompressor produces, extraction into a clean destination never panics, ends `ok` or `err`, and touches nothing
+that is not the destination or below it -/
+theorem extract_package_hostile (p : Package) (a? : Option Bytes) (inp : Input)
+    (_hi : extractInput p a? = some inp) (T : Path) (fs : Fs) (hc : TargetClean fs T) :
+    (extract inp T fs).out.isPanic = false ∧
+    ((extract inp T fs).out.isOk = true ∨ (extract inp T fs).out.isErr = true) ∧
+    Contained T fs (extract inp T fs).fs ∧
+    ∃ L, (extract inp T fs).fs.log = L ++ fs.log ∧ ∀ q ∈ L, T <+: q :=
+  extract_hostile inp T fs hc
+
+/-- … and reading the package does not panic either: not `get_payload_compressor`, not the indexing
+`self.file_entries[index]` of the iterator, not `extract` on whatever they yield (`get_file_entries` and the cpio reader
+are total by C04 `getFileEntries_total` / `iterate_total`; a panic there would be `tailOk = false` here) -/
+theorem extract_package_total (p : Package) (es : List Acc.FileEntry) (a : Bytes) :
+    (Acc.getPayloadCompressorVariant p.md.header).isPanic = false ∧
+    (∀ i c, .ok (i, c) ∈ Cpio.iterate a (pathsOf es) (sizesOf es) → i < es.length) ∧
+    ∀ inp T fs, (extract inp T fs).out.isPanic = false := by
+  refine ⟨?_, itemsOf_in_range es a, fun inp T fs => extract_not_panic inp T fs⟩
+  unfold Acc.getPayloadCompressorVariant
+  split
+  · unfold Compression.fromStr; split <;> rfl
+  · rfl
+  · rfl
+  · rename_i s hs
+    have := getWith_not_panic IndexData.asStr p.md.header IndexTag.RPMTAG_PAYLOADCOMPRESSOR
+    rw [show getString = getWith IndexData.asStr from rfl] at hs
+    rw [hs] at this; cases this
+
 /-! ### regression: the former counterexamples (names are written as bytes: string literals do not evaluate in the kernel) -/
 
 /-- `decoy` -/ def nDecoy : Name := [100, 101, 99, 111, 121]
@@ -339,5 +514,97 @@ example : WellFormed jail := by
     | dir m => exact ⟨m, rfl⟩
     | file => rw [hp] at this; simp [Node.isDir] at this
     | symlink => rw [hp] at this; simp [Node.isDir] at this
+
+/-! ### a concrete package (header entries written out; the payload is a newc archive made by the cpio writer model) -/
+
+def wEntry (tag : Nat) (d : IndexData) : Entry := ⟨tag, d, 0, 0⟩
+
+/-- main header of a package with one regular file `/f` (mode 0644, 2 bytes), the given RPMTAG_FILEDIGESTALGO (or none),
+file digest and RPMTAG_PAYLOADCOMPRESSOR (or none) -/
+def wHdr (algo : Option Nat) (digest : Bytes) (comp : Option Bytes) : Header := ⟨0, 0, [
+  wEntry IndexTag.RPMTAG_FILESIZES (.int32 [2]), wEntry IndexTag.RPMTAG_FILEMODES (.int16 [0o100644]),
+  wEntry IndexTag.RPMTAG_FILEMTIMES (.int32 [0]), wEntry IndexTag.RPMTAG_FILEDIGESTS (.strArray [digest]),
+  wEntry IndexTag.RPMTAG_FILELINKTOS (.strArray [[]]), wEntry IndexTag.RPMTAG_FILEFLAGS (.int32 [0]),
+  wEntry IndexTag.RPMTAG_FILEUSERNAME (.strArray [[114]]), wEntry IndexTag.RPMTAG_FILEGROUPNAME (.strArray [[114]]),
+  wEntry IndexTag.RPMTAG_DIRINDEXES (.int32 [0]), wEntry IndexTag.RPMTAG_BASENAMES (.strArray [nF]),
+  wEntry IndexTag.RPMTAG_DIRNAMES (.strArray [[47]])]
+  ++ (match algo with | some a => [wEntry IndexTag.RPMTAG_FILEDIGESTALGO (.int32 [a])] | none => [])
+  ++ (match comp with | some c => [wEntry IndexTag.RPMTAG_PAYLOADCOMPRESSOR (.str c)] | none => []), []⟩
+
+/-- `./f` with content `hi`, then the trailer -/
+def wArchive : Bytes := Cpio.archiveOf [({ name := [46, 47] ++ nF, ino := 1, mode := 0o100644 }, [104, 105])]
+
+def wPkg (algo : Option Nat) (digest : Bytes) (comp : Option Bytes := none) : Package :=
+  ⟨⟨⟨3, 0, 0, 0, [], 1, 5, []⟩, ⟨0, 0, [], []⟩, wHdr algo digest comp⟩, wArchive⟩
+
+/-- the view of that package when it is read: DIRNAMES `["/"]`, the file `/f` -/
+def wViewOk : Input := ⟨some [[47]], [⟨[47] ++ nF, .regular, 0o644, [104, 105], []⟩], true⟩
+/-- … and when `files()` fails -/
+def wViewErr : Input := ⟨some [[47]], [], false⟩
+
+/-- **the digest lengths `extractInput` accepts are those of the source's table** (decided anew on the table scraped
+from `FileDigest::new` on every run): for every (algorithm, length) pair of it, the one-file package whose digest has
+that length is read and its file handed to `extract`; with four more characters — for SHA-224 that is the pre-fix
+length 60 which C12's former private copy of `get_file_entries` still demanded — `files()` fails -/
+theorem digest_table_decides : ∀ p ∈ fileDigestHexLen,
+    extractInput (wPkg (some p.1) (List.replicate p.2 97)) none = some wViewOk ∧
+    extractInput (wPkg (some p.1) (List.replicate (p.2 + 4) 97)) none = some wViewErr := by decide +kernel
+
+/-- a number that is no `DigestAlgorithm` (2 = SHA-1, 0, 99) or the missing tag mean MD5; an algorithm without an arm
+in `FileDigest::new` (12, 14 = SHA-3) accepts no digest at all but the empty one -/
+theorem digest_algo_fallbacks :
+    (∀ a ∈ [none, some 0, some 2, some 99], ∀ n ∈ [32, 40, 56, 64],
+      extractInput (wPkg a (List.replicate n 97)) none = some (if (1, n) ∈ fileDigestHexLen then wViewOk else wViewErr)) ∧
+    (∀ a ∈ [12, 14], ∀ n ∈ [32, 56, 64, 128],
+      extractInput (wPkg (some a) (List.replicate n 97)) none
+        = some (if (a, n) ∈ fileDigestHexLen then wViewOk else wViewErr) ∧
+      extractInput (wPkg (some a) []) none = some wViewOk) := by decide +kernel
+
+/-! #### non-vacuity of the package theorems -/
+
+/-- the table knows SHA-224 (algorithm 11), so `digest_table_decides` speaks about it -/
+example : fileDigestHexLen ≠ [] ∧ (fileDigestHexLen.map (·.1)).contains 11 = true := by decide
+/-- the length the table pairs with SHA-224 -/
+def wLen224 : Nat := (fileDigestHexLen.lookup 11).getD 0
+example : extractInput (wPkg (some 11) (List.replicate wLen224 97)) none = some wViewOk := by decide +kernel
+/-- `input_digests_standard` applies to it (items ≠ []) -/
+example : ∃ es, Acc.getFileEntries (wPkg (some 11) (List.replicate wLen224 97)).md.signature
+      (wPkg (some 11) (List.replicate wLen224 97)).md.header = .ok es ∧
+    ∀ e ∈ es, ∀ d, e.digest = some d → (d.1, d.2.length) ∈ fileDigestHexLen :=
+  input_digests_standard _ none wViewOk (by decide +kernel) (.inr rfl)
+/-- … and the entry list does carry a SHA-224 digest -/
+example : Acc.getFileEntries (wPkg (some 11) (List.replicate wLen224 97)).md.signature
+      (wPkg (some 11) (List.replicate wLen224 97)).md.header
+      = .ok [⟨[47] ++ nF, 0o100644, [114], [114], 0, 2, 0, some (11, List.replicate wLen224 97), none, [], none⟩] := by
+  decide +kernel
+/-- `input_of_files`: entries, variant and archive of the concrete package -/
+example : (Acc.getFileEntries (wPkg none []).md.signature (wPkg none []).md.header).map List.length = .ok 1 ∧
+    Acc.getPayloadCompressorVariant (wPkg none []).md.header = .ok payloadCompressorDefault ∧
+    (if payloadIsArchive payloadCompressorDefault then some (wPkg none []).content else none) = some wArchive := by
+  decide +kernel
+/-- `input_files_failed`: an unknown compressor name (`lz4`), a compressor of the wrong type is an error as well -/
+example : (Acc.getPayloadCompressorVariant (wPkg none [] (some [108, 122, 52])).md.header).isOk = false ∧
+    extractInput (wPkg none [] (some [108, 122, 52])) none = some wViewErr := by decide +kernel
+/-- a compressed payload: the archive comes from the decompressor (parameter); without it there is no prediction -/
+example : extractInput (wPkg none [] (some [120, 122])) (some wArchive) = some wViewOk ∧
+    extractInput (wPkg none [] (some [120, 122])) none = none := by decide +kernel
+/-- `payload_compressor_bridge` on `xz`: variant 3 on one side, the name `xz` on the other -/
+example : (Acc.getPayloadCompressor Acc.compressorNames (wHdr none [] (some [120, 122]))).toOption = some [120, 122] ∧
+    (Acc.getPayloadCompressorVariant (wHdr none [] (some [120, 122]))).isOk = true := by decide +kernel
+/-- `input_item_designated`: two header files, an item -/
+def wEntries : List Acc.FileEntry :=
+  [⟨[47] ++ nF, 0o100644, [114], [114], 0, 2, 0, none, none, [], none⟩, ⟨[47] ++ nA, 0o120777, [114], [114], 0, 0, 0, none, none, nF, none⟩]
+example :
+    (⟨[47] ++ nF, .regular, 0o644, [104, 105], []⟩ : Item) ∈ (itemsOf wEntries wArchive).1 ∧ (itemsOf wEntries wArchive).2 = true := by
+  decide +kernel
+/-- `input_index_in_range` / `input_items_are_iteration`: the iteration of the concrete archive has an `Ok` -/
+example : Cpio.iterate wArchive (pathsOf wEntries) (sizesOf wEntries) = [.ok (0, [104, 105])] := by decide +kernel
+/-- an archive entry that names no header file ends the items with an error -/
+example : itemsOf [wEntries[1]] wArchive = ([], false) := by decide +kernel
+/-- `extract_package_hostile` on the concrete package and the jail -/
+example : Contained [nTarget] jail (extract wViewOk [nTarget] jail).fs :=
+  (extract_package_hostile (wPkg none []) none wViewOk (by decide +kernel) [nTarget] jail jail_clean).2.2.1
+example : (extract wViewOk [nTarget] jail).out = .ok () ∧
+    (extract wViewOk [nTarget] jail).fs.get [nTarget, nF] = some (.file [104, 105] 0o644) := by decide +kernel
 
 end RpmVerif.C12
